@@ -20,7 +20,7 @@ META = {
     "nshards": {"quick": 4, "thorough": 4},
     "hashseeds": {"quick": [0, 1, 2, 3], "thorough": [0, 1, 2, 3, 5, 7, 11, 13, 17, 101, 1234, 4242, 31337, 65535, 99991, 4294967295]},
     "min_obs": {"all": {"pairs_compared": 2000, "rename_pairs": 300, "split_pairs": 300, "candorder_pairs": 300,
-                        "hashseed_outcomes": 2000, "util_pairs": 300, "candsomitted_pairs": 100, "hashseed_pairs_compared": 3000}},
+                        "hashseed_outcomes": 2000, "util_pairs": 300, "candsomitted_pairs": 100, "hashseed_pairs_compared": 1500}},
 }
 
 NAMEPOOL = list(dict.fromkeys(gen.NAMES + gen.PLAIN + ["zz", "0", "Á", "~"]))
